@@ -108,6 +108,27 @@ def _mask_case(args):
                     f"{cont.tolist()}\nrefilled\n"
                     f"{None if rf is None else rf.astype(int)}", tags))
                 continue
+            # the same binary image in other encodings (0/255 as stored in
+            # .rtdc files, a label image, floats)
+            if mi % 5 == 0:
+                for enc_name, enc in (("uint8-255", f.astype(np.uint8) * 255),
+                                      ("int-label-3", f.astype(int) * 3),
+                                      ("float", f.astype(float))):
+                    try:
+                        c2 = get_contour(enc)
+                        same = np.array_equal(c2, cont)
+                    except BaseException as e:
+                        same = False
+                        c2 = f"{type(e).__name__}: {e}"
+                    if not same:
+                        out.append(violation(
+                            "dclab.features.contour:get_contour",
+                            "depends-on-mask-encoding", case,
+                            f"mask encoded as {enc_name}: contour "
+                            f"{np.asarray(c2).tolist()!r:.300} instead of "
+                            f"{cont.tolist()!r:.300}",
+                            dict(tags, encoding=enc_name)))
+                        break
             if where not in ("interior", "bottom"):
                 continue
             # translation invariance of contour features (float contours,
